@@ -17,7 +17,7 @@ from props import static_facts as sf
 
 SETUP_KEY = "api"
 PID = "C19"
-THEOREMS = ["C19_sigs_ok", "C19_zst_shape", "C19_zst_cond", "C19_zst_cond_complete"]
+THEOREMS = ["C19_sigs_ok", "C19_zst_shape", "C19_zst_cond", "C19_zst_cond_complete", "C19_macros_no_caller_code_in_unsafe"]
 
 
 def setup():
@@ -32,6 +32,7 @@ def _report():
                 "(\"guard is size_of == 0 && align_of <= MAX_ALIGN\", sb (zcond_canonical zst_cond)); "
                 "(\"anchor types are repr(align(N)) for Alignment<N>\", sb (aligned_types_ok aligned_types))]"),
         ("unsafe_gc_fns", "map (fun f => (fq f, \"unsafe\")) (filter (fun f => is_public_fn f && fs_unsafe f && returns_gc decls f) pub_fns)"),
+        ("unsafe_metavars", "map (fun e => (fst (fst e) ++ \" $\" ++ snd (fst e) ++ \":\" ++ snd e, sb (metavar_harmless e))) unsafe_metavars"),
         ("unknown", "map (fun s => (s, \"\")) GenSigs.unknown_items"),
     ]
     return sf.model_report("c19_report", evals)
@@ -54,7 +55,7 @@ def run(chk, tier, seed):
         "the anchor allocation is aligned to MAX_ALIGN (C17_value_aligned, other component)",
     ]
     chk.assumptions.append("PARTIAL: soundness of the signature criterion is a trusted parametricity argument; "
-                           "unsize!/__coerce_unchecked macro hygiene is covered only by probes and the twin")
+                           "unsize!: the caller's expression stays outside the unsafe block (token-level scan, theorem C19_macros_no_caller_code_in_unsafe); that the coercion closure only type-checks for genuine unsizing coercions is covered by probes and the twin")
 
     rep = {}
     with sf.locked():
@@ -72,6 +73,9 @@ def run(chk, tier, seed):
     bad_sigs = [k for k, v in rep.get("sigs", []) if v != "true"]
     offenders = ["safe public fn returns a Gc to a type no parameter supplies: " + k for k in bad_sigs]
     offenders += ["ZstCache guard: NOT " + k for k, v in rep.get("zst", []) if v != "true"]
+    offenders += ["macro_rules! %s is expanded inside the macro's own `unsafe` block (caller code runs in an unsafe context)" % k
+                  for k, v in rep.get("unsafe_metavars", []) if v != "true"]
+    chk.cov["model_unsafe_metavars"] = rep.get("unsafe_metavars", [])
     offenders += ["unclassified syntax: " + k for k, _ in rep.get("unknown", [])]
     chk.cov["offending_items"] = offenders
 
